@@ -79,6 +79,11 @@ def eval_inv(ex, inv, st, extra):
     """evaluate invariant clauses in state st (+ extra bindings); returns list of (index, text, term)"""
     loc = State(dict(st.env, **extra), st.heap, st.ver, st.pc, st.ghost)
     out = []
+    for nm, t in inv_decls(ex, inv).items():
+        v = loc.env.get(nm)
+        pv = loc.deref(v) if isinstance(v, Ref) else v
+        if isinstance(pv, SList) and pv.elem is None and isinstance(t, TList):
+            loc.env[nm] = loc.alloc(SList.of(pv.concrete_items() or [], t.elem) if pv.concrete_items() is not None else SList(pv.n, pv.get, t.elem))
     for cl in inv.of('let'):
         for k, v in cl.kw.items():
             loc.env[k] = ex.evs(v, loc)
